@@ -299,6 +299,50 @@ class KernelHooks(Hooks):
             for k in range(nbytes // 8):
                 it.write(it.deref(it.ptr_add(dst, k), node), Poly.const(0), node)
             return dst
+        m_ = _rx.match(r'^std::(plus|minus|multiplies|divides|negate)<(?:double|void)?>::operator\(\)$', name)
+        if m_:
+            vals = []
+            for a in args:
+                v = it.eval(a)
+                vals.append(it.to_poly(v.value if isinstance(v, Cell) else v))
+            op = m_.group(1)
+            if op == 'negate':
+                return -vals[0]
+            if op == 'divides':
+                return it.divide(vals[0], vals[1], node) if hasattr(it, 'divide') else vals[0].div(vals[1])
+            return {'plus': vals[0] + vals[1], 'minus': vals[0] - vals[1], 'multiplies': vals[0] * vals[1]}[op]
+        if _rx.match(r'^std::(plus|minus|multiplies|divides|negate|less|greater|less_equal|greater_equal|equal_to)<[^>]*>::\1$', name):
+            return Obj(name.split('::')[1] if False else 'std::functor')
+        if base in ('std::min_element', 'std::max_element') and len(args) in (2, 3):
+            a, e = it.eval(args[0]), it.eval(args[1])
+            n = self._count(it, a, e, node)
+            comp = it.eval(args[2]) if len(args) == 3 else None
+
+            def less(x, y):
+                if comp is not None:
+                    if not (hasattr(comp, 'lam') and comp.lam is not None):
+                        raise Unsupported('%s with a comparison object that is not a lambda at %s' % (base, it.loc(node)))
+                    r = it.call_lambda_values(comp, [x, y])
+                else:
+                    r = it.compare('<', x, y, node)
+                if isinstance(r, Cond):
+                    raise Unsupported('%s over values whose order is not decidable at %s' % (base, it.loc(node)))
+                return bool(r)
+            if n == 0:
+                return e
+            best = 0
+            vals = [it.read(it.deref(it.ptr_add(a, k), node), node) for k in range(n)]
+            for k in range(1, n):
+                if (less(vals[k], vals[best]) if base.endswith('min_element') else less(vals[best], vals[k])):
+                    best = k
+            return it.ptr_add(a, best)
+        if base == 'std::iter_swap' and len(args) == 2:
+            a, b = it.eval(args[0]), it.eval(args[1])
+            ca, cb = it.deref(a, node), it.deref(b, node)
+            va, vb = it.read(ca, node), it.read(cb, node)
+            it.write(ca, vb, node)
+            it.write(cb, va, node)
+            return None
         if base == 'std::equal' and len(args) == 3:
             a, e, b = it.eval(args[0]), it.eval(args[1]), it.eval(args[2])
             n = self._count(it, a, e, node)
@@ -458,6 +502,7 @@ class KernelHooks(Hooks):
             self.reads.append((cell.idx, fn, it.loc(node) if node else '?'))
 
 
+_rx = re  # (external_call has locals named re/im)
 _WUPD = re.compile(r'Wrapper(<[^<>]*>)?::operator\+=$')
 
 
